@@ -19,6 +19,7 @@ import subprocess
 import sys
 import time
 import traceback
+import warnings
 from collections import Counter
 from concurrent.futures import ProcessPoolExecutor, wait, FIRST_COMPLETED
 
@@ -74,11 +75,30 @@ class _Sink(io.TextIOBase):
         return len(s)
 
 
+ENV_MODES = {'O': ['-O'], 'Werror': []}           # Werror: the filter that -W error installs is put around each run
+ENV_MODE_TEXT = {'O': 'interpreter started with -O', 'Werror': 'warnings raised as errors (-W error)'}
+
+
+def pymode():
+    """Which non-default interpreter configuration this process stands for ('' = default)."""
+    return os.environ.get('VERIF_PYMODE', '')
+
+
 def execute_plan(engine, plan, prop, known, keep_trace=False):
     """One execution.  Returns the Ctx.  Harness exceptions propagate."""
     ctx = Ctx([prop], known, keep_trace)
     sink = _Sink()
-    with contextlib.redirect_stdout(sink):
+    if pymode() == 'Werror':
+        # module imports happen under the interpreter's own filters (the standard library's ctypes does
+        # not import with BytesWarning raised); the configuration applies to what runs afterwards
+        from . import seams as _seams
+        _seams.lib()
+        import http.client, json, decimal, base64, unicodedata, logging      # noqa: F401,E401  (used lazily by library paths)
+    with contextlib.redirect_stdout(sink), warnings.catch_warnings():
+        if pymode() == 'Werror':
+            # the interpreter configuration "-W error": every warning the library (or anything it
+            # calls) emits is raised as an exception at the point where it is emitted
+            warnings.simplefilter('error')
         try:
             engine.execute(plan, ctx)
         except StopRun:
@@ -390,11 +410,11 @@ def write_replay(prop, plan, v, digest, history=()):
         v = _V(v)
     rdir = os.environ.get('VERIF_REPLAY_DIR') or os.path.join(VERIF, 'replays')
     os.makedirs(rdir, exist_ok=True)
-    name = '%s-%s-%s%s.json' % (prop, v.clause.split('.', 1)[1].replace('/', '_'), plan.get('seed'), '-pyO' if sys.flags.optimize else '')
+    name = '%s-%s-%s%s.json' % (prop, v.clause.split('.', 1)[1].replace('/', '_'), plan.get('seed'), ('-py' + pymode()) if pymode() else '')
     path = os.path.join(rdir, name)
     doc = {'property': prop, 'clause': v.clause, 'message': v.message, 'detail': v.detail, 'engine': plan.get('engine'),
            'plan': plan, 'history': list(history), 'trace_digest': digest, 'repo': repo_state(), 'python': sys.version.split()[0],
-           'python_optimize': int(sys.flags.optimize),
+           'python_optimize': int(sys.flags.optimize), 'python_mode': pymode(),
            'note': 'history = plans that must be executed first in the same process (empty unless the library under test keeps hidden process-global state)'}
     with open(path, 'w') as f:
         json.dump(doc, f, indent=1, sort_keys=True, default=str)
@@ -419,7 +439,7 @@ def replay_file(path, quiet=False):
 def replay_in_fresh_interpreter(path):
     env = dict(os.environ)
     env['PYTHONHASHSEED'] = '12345'
-    env.pop('VERIF_PYOPT', None)          # the replay file itself says which interpreter mode it needs
+    env.pop('VERIF_PYMODE', None)         # the replay file itself says which interpreter mode it needs
     r = subprocess.run([sys.executable, os.path.join(VERIF, 'vf'), 'replay', path, '--quiet'], capture_output=True, text=True,
                        env=env, timeout=600, cwd=VERIF)
     return r.returncode == 1 and 'VIOLATION' in r.stdout, r
@@ -558,37 +578,44 @@ def run_check(prop, tier, base_seed=None, budget_s=None, workers=None, runs=None
     # A violation seen once that cannot be produced again is a harness error - unless another violation of
     # the same check did reproduce: then the verdict stands on that one and this is only noted (a library
     # that keys behaviour on memory layout produces both kinds in one batch).
-    # ---- second pass: the same check in an interpreter started with -O (assertions stripped, __debug__
-    # False) - a production configuration in which `assert` statements of the library silently vanish
+    # ---- further passes: the same check under other interpreter configurations - started with -O
+    # (assert statements and __debug__ blocks removed), and with every warning raised as an error
+    # (-W error) - production and CI configurations in which library code takes other paths
     opt_lines = []
     opt_rc = 0
-    if os.environ.get('VERIF_PYOPT') != '1' and not sys.flags.optimize and os.environ.get('VERIF_NO_PYOPT') != '1':
+    if not pymode() and os.environ.get('VERIF_NO_ENVPASS') != '1':
         import tempfile
-        tmpd = tempfile.mkdtemp(prefix='vf-pyopt-', dir='/var/tmp')
-        env = dict(os.environ)
-        env.update(VERIF_PYOPT='1', VERIF_EVIDENCE_DIR=tmpd, VERIF_SEED=str(base_seed), VERIF_TIER=tier,
-                   VERIF_BUDGET_S=str(max(8.0, budget_s / 5.0)), VERIF_RUNS=str(max(50, runs // 8)))
-        if nsys > 2000:
-            env['VERIF_SKIP_SYSTEMATIC'] = '1'
-        try:
-            pr = subprocess.run([sys.executable, os.path.join(VERIF, 'vf'), 'check', prop, '--tier', tier], capture_output=True, text=True, env=env,
-                                cwd=VERIF, timeout=max(600.0, budget_s))
-            opt_rc = pr.returncode
-            for line in pr.stdout.splitlines():
-                if line.startswith(('violated clause', 'VIOLATION ', 'NOTE ')):
-                    opt_lines.append(line)
+        agg['envpass'] = {}
+        for mode in ENV_MODES:
+            tmpd = tempfile.mkdtemp(prefix='vf-py%s-' % mode, dir='/var/tmp')
+            env = dict(os.environ)
+            env.update(VERIF_PYMODE=mode, VERIF_EVIDENCE_DIR=tmpd, VERIF_SEED=str(base_seed), VERIF_TIER=tier,
+                       VERIF_BUDGET_S=str(max(8.0, budget_s / 6.0)), VERIF_RUNS=str(max(50, runs // 8)))
+            if nsys > 2000:
+                env['VERIF_SKIP_SYSTEMATIC'] = '1'
             try:
-                with open(os.path.join(tmpd, '%s.json' % prop)) as f:
-                    oe = json.load(f)
-                agg['pyopt'] = {'runs': oe['coverage']['runs'], 'violated_clauses': oe['coverage'].get('violated_clauses', []), 'exit': opt_rc}
-            except (OSError, ValueError, KeyError):
-                agg['pyopt'] = {'runs': 0, 'exit': opt_rc}
-            if opt_rc not in (0, 1):
-                harness_errors.append('second pass under python -O failed (rc=%s): %s' % (opt_rc, (pr.stderr or pr.stdout)[-400:]))
-        except subprocess.TimeoutExpired:
-            harness_errors.append('second pass under python -O timed out')
-        finally:
-            shutil.rmtree(tmpd, ignore_errors=True)
+                pr = subprocess.run([sys.executable, os.path.join(VERIF, 'vf'), 'check', prop, '--tier', tier], capture_output=True, text=True, env=env,
+                                    cwd=VERIF, timeout=max(600.0, budget_s))
+                rc = pr.returncode
+                for line in pr.stdout.splitlines():
+                    if line.startswith('violated clause'):
+                        opt_lines.append(line + ' [%s]' % ENV_MODE_TEXT[mode])
+                    elif line.startswith(('VIOLATION ', 'NOTE ')):
+                        opt_lines.append(line)
+                try:
+                    with open(os.path.join(tmpd, '%s.json' % prop)) as f:
+                        oe = json.load(f)
+                    agg['envpass'][mode] = {'runs': oe['coverage']['runs'], 'violated_clauses': oe['coverage'].get('violated_clauses', []), 'exit': rc}
+                except (OSError, ValueError, KeyError):
+                    agg['envpass'][mode] = {'runs': 0, 'exit': rc}
+                if rc == 1:
+                    opt_rc = 1
+                elif rc != 0:
+                    harness_errors.append('pass under %s failed (rc=%s): %s' % (ENV_MODE_TEXT[mode], rc, (pr.stderr or pr.stdout)[-400:]))
+            except subprocess.TimeoutExpired:
+                harness_errors.append('pass under %s timed out' % ENV_MODE_TEXT[mode])
+            finally:
+                shutil.rmtree(tmpd, ignore_errors=True)
     if unreproduced and not reported:
         harness_errors.extend(unreproduced)
     if agg.get('nondeterministic') and not reported:
@@ -603,7 +630,7 @@ def run_check(prop, tier, base_seed=None, budget_s=None, workers=None, runs=None
         print('violated clause %s: %s (minimised to %d steps%s)' % (cl, msg, nsteps, ', needs %d earlier run(s) in the same process: the library keeps hidden global state' % nhist if nhist else ''))
         print('VIOLATION property=%s replay=%s' % (prop, path))
     for line in opt_lines:
-        print(line if not line.startswith('violated clause') else line + ' [interpreter started with -O]')
+        print(line)
     if reported:
         for u in unreproduced:
             print('NOTE (not part of the verdict): %s' % u)
@@ -655,7 +682,7 @@ def write_evidence(prop, tier, base_seed, engine, agg, reported, harness_errors,
         'violated_clauses': [{'clause': c, 'message': m, 'replay': p} for c, m, p, _, _h in reported],
         'history_dependent_executions': int(agg.get('history_dependent', 0)),
         'nondeterministic_reexecutions': int(agg.get('nondeterministic', 0)),
-        'second_pass_under_python_O': agg.get('pyopt', {'runs': 0, 'note': 'this IS the -O pass' if sys.flags.optimize else 'disabled'}),
+        'passes_under_other_interpreter_configurations': agg.get('envpass', {'note': ('this IS the pass under: ' + ENV_MODE_TEXT[pymode()]) if pymode() else 'disabled'}),
         'harness_errors': harness_errors,
         'other_property_clause_hits_ignored': dict(agg['other_prop']),
         'exhaustive': False,
